@@ -127,6 +127,8 @@ class C04(FprCheck):
         runs = []
         for r in case["runs"]:
             # run(conf) derives a fresh molecule wrapper: identity nobody has seen
+            # (the documented form run(conf_id) without a molecule raises AttributeError on the unchanged tree whatever the
+            #  history - the int is never turned into a conformer - so it is not a call form the property can speak about)
             mid = None if r["form"] == "conf_only" else r["mol"]
             runs.append({"conf": cidx[(r["mol"], r["conf"])], "mid": mid, "queries": r["queries"]})
         return [{"op": "fpo.hist", "opts": o, "mols": [MG.mol_facts(m) for m in mols], "confs": confs, "mult": MG.fbits(mult), "runs": runs}]
